@@ -572,6 +572,13 @@ impl<'source> CodeGenerator<'source> {
         let mut undeclared = crate::compiler::meta::find_macro_closure(macro_decl);
         let caller_reference = undeclared.remove("caller");
         let macro_instr = self.next_instruction();
+        // a macro that refers to itself encloses its own name.  Declare the
+        // name first so that enclosing it does not consult the context for a
+        // value that is replaced by the macro right away.
+        if undeclared.contains(macro_decl.name) {
+            self.add(Instruction::LoadConst(Value::UNDEFINED));
+            self.add(Instruction::StoreLocal(macro_decl.name));
+        }
         for name in &undeclared {
             self.add(Instruction::Enclose(name));
         }
